@@ -10,6 +10,8 @@ Anchors
   rpylib/process/coupling/couplinglevycopula.py:90-125    next_level (diffusion matrices shifted)
   rpylib/process/process.py:52-57                         deterministic_path = x0 + process_drift * t
   rpylib/grid/spatial.py:110-120                          refine (Model/Grid.lean)
+  rpylib/process/coupling/couplingsde.py:21-52,66-73,133-146  CouplingSDE: constructor, initialisation, next_level (`SdeLevel`)
+  rpylib/process/coupling/couplingsde.py:87-111           which driver drift / driver path each Euler component reads (`sdeUses`)
 
 The coarse grid is the set of even indices of the refined (fine) grid.  A fine jump with an even increment is copied, a
 fine jump with an odd increment is moved to one of the two neighbours (1-d) / one of the 2^|S| corners (n-d, S = the odd
@@ -290,5 +292,82 @@ def lineMargin : MarginMass := fun S box =>
 
 def cexCoarse : List Rat := [-1, 0, 1]
 def cexFine : List Rat := refine amid cexCoarse
+
+/-! ### d = 3 and measures carried by the coordinate axes (Proofs/C03.lean, non-vacuity of the independent case) -/
+
+/-- 3-d: jump rate of the coarse component of the coupled pair to the state with fine-grid coordinates `ys` -/
+def coupledRate3 (axes : List (List Rat)) (o : Nat) (m : MarginMass) (ys : List Nat) : Rat :=
+  ((List.range (axes.getD 0 []).length).map (fun i =>
+    ((List.range (axes.getD 1 []).length).map (fun j =>
+      ((List.range (axes.getD 2 []).length).map (fun k => flowNd axes o m [i, j, k] ys)).sum)).sum)).sum
+
+/-- 0 lies strictly inside `[a, b]` -/
+def straddles (a b : Rat) : Bool := decide (a < 0) && decide (0 < b)
+
+/-- independent components with Lebesgue margins: the measure `dx ⊗ δ0 (⊗ δ0) + δ0 ⊗ dx (⊗ δ0) (+ δ0 ⊗ δ0 ⊗ dx)`, on the boxes
+    the chain uses (every side strictly on one side of 0 or strictly straddling it), and its margins -/
+def indepMargin : MarginMass := fun S box =>
+  match S, box with
+  | [_], [(a, b)] => b - a
+  | [0, 1], [(a, b), (c, d)] => (if straddles c d then b - a else 0) + (if straddles a b then d - c else 0)
+  | [0, 1, 2], [(a, b), (c, d), (e, f)] =>
+    (if straddles c d && straddles e f then b - a else 0) + (if straddles a b && straddles e f then d - c else 0) +
+      (if straddles a b && straddles c d then f - e else 0)
+  | _, _ => 0
+
+/-- the coarse axis of the non-vacuity examples -/
+def exCoarse : List Rat := [-2, -1, 0, 1, 3]
+def exFine : List Rat := refine amid exCoarse
+
+/-- Lebesgue measure on every index set (a product measure: all margins are Lebesgue): non-vacuity of the hypotheses of
+    `corner_probs_sum_one_3d` -/
+def lebMargin : MarginMass := fun _ box => (box.map (fun p => p.2 - p.1)).foldr (· * ·) 1
+
+/-! ### two different axes (negation witness of the d = 2 statements without the equal-axes hypothesis) -/
+
+def cexCoarseA : List Rat := [-2, -1, 0, 1, 2]
+def cexCoarseB : List Rat := [-1, -1/2, 0, 1/4, 1/2]
+/-- `[-2, -3/2, -1, -1/2, 0, 1/2, 1, 3/2, 2]` -/
+def cexFineA : List Rat := refine amid cexCoarseA
+/-- `[-1, -3/4, -1/2, -1/4, 0, 1/8, 1/4, 3/8, 1/2]` -/
+def cexFineB : List Rat := refine amid cexCoarseB
+
+/-! ### `CouplingSDE`: the record kept by `next_level` (couplingsde.py)
+
+The Euler recursion of the coupled SDE (C16) reads, for the component c ∈ {fine, coarse}: the driver's CTMC drift
+`mc_drift[c]` (`mc_drift_h`, `mc_drift_2h`), the c-th component of the coupled driver path produced by
+`driver_coupling_process` (jumps coupled as above, diffusion `diffFine * w` / `diffCoarse * w` from the same `w`), the one
+coefficient function `model.a` and the one `sde_drift`.  `next_level` shifts these quantities. -/
+
+structure SdeLevel where
+  level : Nat
+  /-- `driver_coupling_process` (a `CouplingMarkovChain` / `CouplingProcessLevyCopula`); `path_managers=None` is passed to its
+      `next_level`, so no frozen deterministic path is created there -/
+  drv : Level Rat
+  /-- `mc_drift_h` -/
+  mcDriftH : Rat
+  /-- `mc_drift_2h` (`None` before the first `next_level`) -/
+  mcDrift2H : Option Rat
+  /-- the spatial step whose Blumenthal-Getoor power is `epsilon` (the maximum time step handed to the driver) -/
+  epsH : Rat
+
+/-- constructor + `initialisation` at level 0: `mc_drift_h = fine_process.markov_chain.process_drift()`, `epsilon = grid.h ** BG` -/
+def sdeInit (chain : Grid → ChainParams Rat) (g : Grid) : SdeLevel :=
+  { level := 0, drv := initLevel 0 chain g, mcDriftH := (chain g).drift, mcDrift2H := none, epsH := g.h }
+
+/-- `CouplingSDE.next_level`: `epsilon = (driver.grid.h / 2) ** BG`, `mc_drift_2h = deepcopy(mc_drift_h)`, the driver coupling
+    moves to its next level, `mc_drift_h = driver_coupling_process.fine_process.process_drift()` -/
+def sdeNext (mid : Rat → Rat → Rat) (chain : Grid → ChainParams Rat) (S : SdeLevel) : SdeLevel :=
+  let drv' := { nextLevel mid chain S.drv with frozen := none }
+  { level := S.level + 1, drv := drv', mcDriftH := drv'.fine.drift, mcDrift2H := some S.mcDriftH, epsH := S.drv.grid.h / 2 }
+
+def sdeLevelAt (mid : Rat → Rat → Rat) (chain : Grid → ChainParams Rat) (g : Grid) : Nat → SdeLevel
+  | 0 => sdeInit chain g
+  | l + 1 => sdeNext mid chain (sdeLevelAt mid chain g l)
+
+/-- the driver quantities the Euler recursion of component c (0 = fine, 1 = coarse) reads: (CTMC drift of the driver,
+    diffusion coefficient applied to the shared Brownian increments); `none`: no coarse component before the first `next_level` -/
+def sdeUses (S : SdeLevel) (c : Nat) : Option (Rat × Rat) :=
+  if c = 0 then some (S.mcDriftH, S.drv.diffFine) else S.mcDrift2H.map (fun mu => (mu, S.drv.diffCoarse))
 
 end Rpylib.Coupling
